@@ -13,6 +13,14 @@ pub fn reprs(t: &Tree) -> Vec<(&'static str, Vec<u8>)> {
     if t.all_finite() {
         v.push(("text", refjson::compact(t)));
     }
+    // what the library's own encoder writes for the document, whenever that is not the
+    // documented layout (C01 reports the layout; here the functions are given those bytes, which
+    // is what a caller who builds documents with `Value::to_vec` hands them)
+    if let Ok(own) = crate::monitor::guard(|| t.to_value().to_vec()) {
+        if own != v[0].1 {
+            v.push(("jsonb(Value::to_vec)", own));
+        }
+    }
     v
 }
 
